@@ -44,6 +44,8 @@ type Scenario struct {
 	Actions []Action     `json:"actions"`
 	Preempt bool         `json:"preempt"`
 	Drawn   bool         `json:"drawn"`
+	// Excl names the listed findings whose shape the generator left out of this scenario by construction.
+	Excl []string `json:"excl,omitempty"`
 }
 
 // TargetIDs returns the scenario's target ids.
@@ -98,6 +100,7 @@ type Run struct {
 	// CountInFlight samples how many proposals of one target are unfinished at the same step.
 	CountInFlight bool
 	steps         int
+	Budget        int // step budget override (0 = derived from the scenario's length)
 	// statistics
 	FaultsBetweenTx           bool
 	MasterChangeWhileApplying bool
@@ -121,6 +124,9 @@ func Execute(x *vstat.Ctx, sc Scenario, mon func(r *Run, info StepInfo) error, o
 	for _, o := range opts {
 		o(r)
 	}
+	for _, id := range sc.Excl {
+		x.Excluded(id)
+	}
 	r.Calls = make([]*Call, len(sc.Actions))
 	r.RefTxs = make([]*RefTx, len(sc.Actions))
 	for id, d := range w.Devices {
@@ -131,6 +137,9 @@ func Execute(x *vstat.Ctx, sc Scenario, mon func(r *Run, info StepInfo) error, o
 		r.Prep(w)
 	}
 	w.S.Budget = 4000 + 1500*len(sc.Actions)
+	if r.Budget > 0 {
+		w.S.Budget = r.Budget
+	}
 	if r.Monotonic || r.Mon != nil || r.CountInFlight {
 		w.S.Monitor = func(info StepInfo) error { return r.monitor(info) }
 	}
